@@ -625,7 +625,7 @@ def _wrap(rng, d):
 
 def gen_cases(seed, tier):
     rng = random.Random(seed * 104729 + 2)
-    n = {'quick': 3600, 'thorough': 45000, 'search': 30000}[tier]
+    n = {'quick': 3600, 'thorough': 30000, 'search': 30000}[tier]
     depth = 2 if tier == 'quick' else 3
     cases = []
     while len(cases) < n:
